@@ -135,61 +135,32 @@ class SubGrid(object):
         #
         # o - Node position.
 
-        # Determine position in the file of the sixteen surrounding nodes
-        pos1 = row * num_cols + col
-        pos2 = pos1 + 1
-        pos3 = pos2 + num_cols
-        pos4 = pos3 - 1
-        pos5 = pos4 - 2 * num_cols - 1
-        pos6 = pos5 + 1
-        pos7 = pos6 + 1
-        pos8 = pos7 + 1
-        pos9 = pos8 + num_cols
-        pos10 = pos9 + num_cols
-        pos11 = pos10 + num_cols
-        pos12 = pos11 - 1
-        pos13 = pos12 - 1
-        pos14 = pos13 - 1
-        pos15 = pos14 - num_cols
-        pos16 = pos15 - num_cols
-
         # Navigate to start of subgrid
         f.seek(start_byte, 1)
-        # Navigate to start of pos1 node
-        f.seek(16 * pos5, 1)
+        first_node = f.tell()
+        num_rows = self.gs_count // num_cols
+        if num_rows < 3 or num_cols < 3:
+            raise ValueError('bicubic interpolation needs a subgrid of at least 3 x 3 nodes')
 
-        # Read in values for nodes 5-8
-        node_5 = read_node(f)
-        node_6 = read_node(f)
-        node_7 = read_node(f)
-        node_8 = read_node(f)
+        def node(r, c):
+            # A node beyond the edge of the subgrid (the point of interest is in the outermost ring of cells) is
+            # extrapolated quadratically from the three nearest nodes of its column or row of the subgrid
+            if not 0 <= r < num_rows:
+                d = 1 if r < 0 else -1
+                return tuple(3 * n1 - 3 * n2 + n3 for n1, n2, n3
+                             in zip(node(r + d, c), node(r + 2 * d, c), node(r + 3 * d, c)))
+            if not 0 <= c < num_cols:
+                d = 1 if c < 0 else -1
+                return tuple(3 * n1 - 3 * n2 + n3 for n1, n2, n3
+                             in zip(node(r, c + d), node(r, c + 2 * d), node(r, c + 3 * d)))
+            f.seek(first_node + 16 * (r * num_cols + c))
+            return read_node(f)
 
-        # Navigate to start of pos16 node
-        f.seek(16 * (pos16 - pos8 - 1), 1)
-
-        # Read in values for nodes 16, 1, 2, and 9
-        node_16 = read_node(f)
-        node_1 = read_node(f)
-        node_2 = read_node(f)
-        node_9 = read_node(f)
-
-        # Navigate to start of pos15 node
-        f.seek(16 * (pos15 - pos9 - 1), 1)
-
-        # Read in values for nodes 15, 3, 4 and 10
-        node_15 = read_node(f)
-        node_4 = read_node(f)
-        node_3 = read_node(f)
-        node_10 = read_node(f)
-
-        # Navigate to start of pos14 node
-        f.seek(16 * (pos14 - pos10 - 1), 1)
-
-        # Read in values for nodes 11, 12, 13 and 14
-        node_14 = read_node(f)
-        node_13 = read_node(f)
-        node_12 = read_node(f)
-        node_11 = read_node(f)
+        # Read in values for the sixteen surrounding nodes
+        node_5, node_6, node_7, node_8 = (node(row - 1, col + i) for i in (-1, 0, 1, 2))
+        node_16, node_1, node_2, node_9 = (node(row, col + i) for i in (-1, 0, 1, 2))
+        node_15, node_4, node_3, node_10 = (node(row + 1, col + i) for i in (-1, 0, 1, 2))
+        node_14, node_13, node_12, node_11 = (node(row + 2, col + i) for i in (-1, 0, 1, 2))
 
         # Determine latitude and longitude of node 1
         lat1 = self.s_lat + row * self.lat_inc
